@@ -472,13 +472,17 @@ def r11_6(chk, so):
     want3 = matmul(x, transpose(R)) + T
     want4 = matmul(x, transpose(S))
     got3 = got4 = None
+    all3 = []
     for e in ev.returns:
         four = any(pol and "shape[1]" in c.key() and "4" in c.key() for c, pol in e.guards)
         if four:
             got4 = e.value
         else:
-            got3 = e.value
-    chk.ob("R11.6", SO, "SymmetryOperation.apply", "3-vectors: x . R^T + t", got3 is not None and got3 == want3,
+            all3.append(e.value)
+    # every path that answers for 3-vectors (a fast path for special rotations included) returns the affine image
+    bad3 = [v for v in all3 if v != want3]
+    got3 = bad3[0] if bad3 else (all3[-1] if all3 else None)
+    chk.ob("R11.6", SO, "SymmetryOperation.apply", "3-vectors: x . R^T + t on every path", bool(all3) and not bad3,
            expected=str(want3), found=str(got3))
     sl3 = "(slice None 3 None)"
 
